@@ -135,9 +135,12 @@ def _gen_extras(rng, model, env):
         kind = rng.random()
         if kind < 0.3:
             extras.append({"name": name, "cmd": "Copy", "args": {"InFieldName": tgt["name"]}})
-        elif kind < 0.5:
+        elif kind < 0.45:
             extras.append({"name": name, "cmd": "PrintVars", "args": {"InFieldNames": [tgt["name"]],
                                                                         "OutFileName": "extra%d.txt" % k}})
+        elif kind < 0.55:
+            extras.append({"name": name, "cmd": "EEMSWrite", "args": {"OutFieldNames": [tgt["name"]],
+                                                                        "OutFileName": "extra%d.csv" % k}})
         elif res.fuzzy:
             cmd = rng.choice(["FuzzyNot", "FuzzyOr", "FuzzyAnd", "FuzzyUnion"])
             extras.append({"name": name, "cmd": cmd, "args": (
